@@ -65,7 +65,16 @@ func mutateValue(r *rand.Rand, root interface{}) (interface{}, string) {
 		return pickS(r, metaStrings), "root-retype"
 	}
 	s := ss[r.Intn(len(ss))]
-	switch r.Intn(9) {
+	switch r.Intn(10) {
+	case 9:
+		if l, ok := s.get().([]interface{}); ok {
+			i := r.Intn(len(l) + 1)
+			nl := append(append(append([]interface{}{}, l[:i]...), nil), l[i:]...)
+			s.set(nl)
+			return newRoot, "null-element"
+		}
+		s.set(nil)
+		return newRoot, "null"
 	case 0:
 		s.set(nil)
 		return newRoot, "null"
@@ -117,6 +126,30 @@ func c12Case(cs int64) (map[string]string, string, string) {
 	r := rand.New(rand.NewSource(cs))
 	if ws := weakSpot(r); ws != nil && r.Intn(4) == 0 {
 		return ws, "/w", "weak-spot-template"
+	}
+	if r.Intn(3) == 0 {
+		// ONE structural fault at a uniformly chosen position of a kustomization that uses every native field
+		files := richTemplate()
+		fn := pickS(r, []string{"/w/kustomization.yaml", "/w/kustomization.yaml", "/w/kustomization.yaml", "/w/res.yaml", "/w/list.yaml", "/w/comp/kustomization.yaml"})
+		if r.Intn(12) == 0 {
+			files["/w/res.yaml"] += pickS(r, []string{"---\napiVersion: v1\nkind: ConfigMap\nmetadata:\n  name: cyc\ndata: &x {a: *x}\n",
+				"---\napiVersion: v1\nkind: ConfigMap\nmetadata: &m\n  name: cyc2\n  labels: {<<: *m}\n", "---\na: &a [*a]\n"})
+			return files, "/w", "rich:alias-cycle"
+		}
+		if r.Intn(15) == 0 {
+			files[pickS(r, []string{"/w/crd.json", "/w/cfg.yaml", "/w/f.txt", "/w/e.env", "/w/p.yaml"})] = pickS(r, []string{"", "\n", "{", "null"})
+			return files, "/w", "rich:empty-file"
+		}
+		docs := splitYAMLDocs(files[fn])
+		di := r.Intn(len(docs))
+		var v interface{}
+		if err := yaml.Unmarshal([]byte(docs[di]), &v); err == nil {
+			nv, l := mutateValue(r, v)
+			b, _ := yaml.Marshal(nv)
+			docs[di] = string(b)
+			files[fn] = strings.Join(docs, "---\n")
+			return files, "/w", "rich:" + l
+		}
 	}
 	f := allFeat()
 	f.Dense = r.Intn(2) == 0
@@ -243,6 +276,189 @@ metadata:
 	return files
 }
 
+
+// richTemplate: a kustomization that uses every native field with a valid entry (it builds as it is)
+func richTemplate() map[string]string {
+	return map[string]string{
+		"/w/kustomization.yaml": `resources:
+- res.yaml
+- list.yaml
+components:
+- comp
+namePrefix: p-
+nameSuffix: -s
+namespace: ns
+commonLabels:
+  a: b
+labels:
+- pairs:
+    c: d
+  includeSelectors: true
+  fields:
+  - path: spec/x
+    kind: MyKind
+    create: true
+commonAnnotations:
+  note: m
+images:
+- name: nginx
+  newTag: "2"
+replicas:
+- name: d
+  count: 2
+configMapGenerator:
+- name: g
+  literals:
+  - a=b
+  files:
+  - f.txt
+  envs:
+  - e.env
+  options:
+    labels:
+      x: val
+secretGenerator:
+- name: s
+  literals:
+  - a=b
+  type: Opaque
+generatorOptions:
+  disableNameSuffixHash: false
+  labels:
+    q: r
+patches:
+- path: p.yaml
+  target:
+    kind: Deployment
+- patch: |-
+    - op: add
+      path: /data/z
+      value: z
+  target:
+    kind: ConfigMap
+    name: cm
+patchesStrategicMerge:
+- p.yaml
+patchesJson6902:
+- target:
+    version: v1
+    kind: ConfigMap
+    name: cm
+  patch: |-
+    - op: add
+      path: /data/j
+      value: j
+replacements:
+- source:
+    kind: ConfigMap
+    name: cm
+    fieldPath: data.k
+  targets:
+  - select:
+      kind: Deployment
+    reject:
+    - name: zz
+    fieldPaths:
+    - metadata.annotations.r
+    options:
+      create: true
+vars:
+- name: V
+  objref:
+    kind: ConfigMap
+    name: cm
+    apiVersion: v1
+  fieldref:
+    fieldpath: data.k
+configurations:
+- cfg.yaml
+crds:
+- crd.json
+sortOptions:
+  order: legacy
+  legacySortOptions:
+    orderFirst:
+    - ConfigMap
+    orderLast:
+    - Deployment
+buildMetadata:
+- originAnnotations
+`,
+		"/w/res.yaml": `apiVersion: apps/v1
+kind: Deployment
+metadata:
+  name: d
+  labels:
+    app: d
+spec:
+  replicas: 1
+  selector:
+    matchLabels:
+      app: d
+  template:
+    metadata:
+      labels:
+        app: d
+    spec:
+      containers:
+      - name: main
+        image: nginx:1
+        env:
+        - name: E
+          value: $(V)
+        ports:
+        - containerPort: 80
+      volumes:
+      - name: v
+        configMap:
+          name: cm
+---
+apiVersion: v1
+kind: ConfigMap
+metadata:
+  name: cm
+data:
+  k: v
+---
+apiVersion: rbac.authorization.k8s.io/v1
+kind: RoleBinding
+metadata:
+  name: rb
+roleRef:
+  apiGroup: rbac.authorization.k8s.io
+  kind: Role
+  name: r
+subjects:
+- kind: ServiceAccount
+  name: sa
+---
+apiVersion: v1
+kind: ServiceAccount
+metadata:
+  name: sa
+`,
+		"/w/list.yaml": `apiVersion: v1
+kind: ConfigMapList
+items:
+- apiVersion: v1
+  kind: ConfigMap
+  metadata:
+    name: l1
+  data:
+    a: b
+- apiVersion: v1
+  kind: ConfigMap
+  metadata:
+    name: l2
+`,
+		"/w/comp/kustomization.yaml": "apiVersion: kustomize.config.k8s.io/v1alpha1\nkind: Component\nconfigMapGenerator:\n- name: cg\n  literals:\n  - c=d\n",
+		"/w/p.yaml":                  "apiVersion: apps/v1\nkind: Deployment\nmetadata:\n  name: d\nspec:\n  template:\n    spec:\n      containers:\n      - name: main\n        env:\n        - name: P\n          value: q\n",
+		"/w/f.txt":                   "file content\n",
+		"/w/e.env":                   "K=V\n",
+		"/w/cfg.yaml":                "nameReference:\n- kind: ConfigMap\n  fieldSpecs:\n  - path: spec/cmRef\n    kind: MyKind\n",
+		"/w/crd.json":                `{"github.com/example/pkg/apis/v1.MyKind": {"Schema": {"properties": {"spec": {"properties": {"cmRef": {"x-kubernetes-object-ref-api-version": "v1", "x-kubernetes-object-ref-kind": "ConfigMap"}}}}}}}`,
+	}
+}
 
 func panicSite(stack string) string {
 	// first kustomize frame below the panic machinery
